@@ -379,6 +379,11 @@ class ExtendedCopy(SCSICommand):
         for target_dict in target_descriptor_list:
             target_data.append(cls.marshall_target(target_dict))
         target_descriptor_list_length = sum([len(item) for item in target_data])
+        if target_descriptor_list_length > 0xFFFF:
+            # TARGET DESCRIPTOR LIST LENGTH is a 16 bit field
+            raise ValueError(
+                "target descriptor list too long: %d bytes" % target_descriptor_list_length
+            )
 
         segment_data = []
         for segment_dict in segment_descriptor_list:
